@@ -380,6 +380,8 @@ def build(S: Sources) -> Unit:
     ]
     errs = []
     ff = guarded(lambda: filter_file(S), errs, []) + guarded(lambda: retain_file(S), errs, [])
+    from units import pipeline_common
+    ff = ff + guarded(lambda: pipeline_common.pipeline_files(S, {"C13"}, "c13"), errs, [])
     return Unit(
         property_id="C13",
         build_errors=errs,
@@ -392,6 +394,6 @@ def build(S: Sources) -> Unit:
             "regular-expression search semantics of Filter::Regex (regex-lite dependency, not under contract)",
             "CLI positional / --skip / --exact arguments to filters (clap, Divan::config_with_args)",
             "trees larger than the one checked, generic (type/const) path components, display names of groups with custom names",
-            "unselected cases are neither run nor shown: follows from retain happening before run_tree (read, not proved)",
+            "unselected cases are neither run nor shown: retain happens on the complete tree before anything is listed, sorted or run (proved on run_action's text); that the later steps do not resurrect entries is read, not proved",
         ],
     )
